@@ -297,7 +297,9 @@ class Polarization(BaseState):
         # If the state is in the composite envelope, measure there
         if isinstance(self.index, tuple) or isinstance(self.index, list):
             assert isinstance(self.composite_envelope, CompositeEnvelope)
-            return self.composite_envelope.measure(self)
+            return self.composite_envelope.measure(
+                self, separate_measurement=separate_measurement, destructive=destructive
+            )
 
         results: Dict[BaseState, int] = {}
         C = Config()
